@@ -8,7 +8,8 @@ CONSTANTS
   MaxBuf = 3
   RawChoices = {FALSE, TRUE}
   DevIgnoredWrite = FALSE
+  DevMutatesDoc = FALSE
   Emit = TRUE
 INVARIANTS TypeOK Accounting Prefix ChunkFree ErrSurfaces NoSpurious Later Refines CounterInv AbstractionOK EmitInv
-PROPERTIES Accounted Retry RetrySink
+PROPERTIES DocUnchanged Accounted Retry RetrySink
 CHECK_DEADLOCK FALSE
